@@ -301,9 +301,30 @@ def stateless_renderer(ctx, pkg, rule):
     from .c14 import _self_writes
     renderers, helpers = _renderer_classes(pkg)
     n = 0
+    def construction_of(ci):
+        """the construction methods of a class and the private helpers reached from them ONLY (a part of __init__ that was extracted)"""
+        callers = {}
+        for mname, m in ci.methods.items():
+            for c in ast.walk(m):
+                if isinstance(c, ast.Call) and isinstance(c.func, ast.Attribute) and isinstance(c.func.value, ast.Name) and c.func.value.id == "self":
+                    callers.setdefault(c.func.attr, set()).add(mname)
+        # (a method handed on as a value -- `cb = self._setup` -- may run any time: not construction)
+        loose = {x.attr for m in ci.methods.values() for x in ast.walk(m) if isinstance(x, ast.Attribute) and isinstance(x.value, ast.Name) and x.value.id == "self"
+                 and isinstance(x.ctx, ast.Load)} - set()
+        called = {c.func.attr for m in ci.methods.values() for c in ast.walk(m) if isinstance(c, ast.Call) and isinstance(c.func, ast.Attribute)}
+        cons = {m for m in ci.methods if m in CONSTRUCTION}
+        for _ in range(4):
+            more = {m for m in ci.methods if m not in cons and m.startswith("_") and not m.startswith("__") and callers.get(m) and callers[m] <= cons and m in called
+                    and sum(1 for mm in ci.methods.values() for x in ast.walk(mm) if isinstance(x, ast.Attribute) and x.attr == m) ==
+                    sum(1 for mm in ci.methods.values() for c in ast.walk(mm) if isinstance(c, ast.Call) and isinstance(c.func, ast.Attribute) and c.func.attr == m)}
+            if not more:
+                break
+            cons |= more
+        return cons
     for ci in renderers:
+        cons = construction_of(ci)
         for mname, fn in sorted(ci.methods.items()):
-            if mname in CONSTRUCTION or not isinstance(fn, ast.FunctionDef):
+            if mname in cons or not isinstance(fn, ast.FunctionDef):
                 continue
             n += 1
             w = _self_writes(fn)
@@ -1180,7 +1201,8 @@ def krome_reset(ctx, pkg, rule="R4"):
     # cls of a method that was not followed, a base-class initialize
     unread = sorted({ast.unparse(c.func)[:40] for part in with_helpers(ini) for c in ast.walk(part) if isinstance(c, ast.Call) and (
         (isinstance(c.func, ast.Name) and c.func.id in ("setattr", "vars", "super")) or
-        (isinstance(c.func, ast.Attribute) and isinstance(c.func.value, ast.Name) and c.func.value.id == "cls" and not _private(c.func.attr)))}
+        (isinstance(c.func, ast.Attribute) and isinstance(c.func.value, ast.Name) and c.func.value.id == "cls" and not _private(c.func.attr)) or
+        any(isinstance(a_, ast.Name) and a_.id == "cls" for a_ in list(c.args) + [k_.value for k_ in c.keywords]))}
         | {"__dict__" for part in with_helpers(ini) for n in ast.walk(part) if isinstance(n, ast.Attribute) and n.attr == "__dict__"})
     for a in sorted(mutated):
         if a not in reset and unread:
